@@ -82,8 +82,21 @@ func reverseOne(api *serix.API, rec *recorder, n *serixgen.Node, b []byte) {
 		return // C02's business
 	}
 	if !serixgen.InRangeOf(n, dec) {
+		// saturated timestamps are excluded by the statement - but only where the INPUT stamp lies outside the int64
+		// range: a wire stamp below the maximum that comes back as the maximum is an in-range input decoded wrongly
+		var re []byte
+		var rerr error
+		if !guard(func() { re, rerr = serixgen.Encode(api, n, dec, true) }) && rerr == nil && len(re) == consumed {
+			sat := []byte{0xff, 0xff, 0xff, 0xff, 0xff, 0xff, 0xff, 0x7f}
+			for k := 0; k+8 <= len(re); k++ {
+				if bytes.Equal(re[k:k+8], sat) && !bytes.Equal(b[k:k+8], sat) && b[k+7] < 0x80 {
+					rec.fail("reverse|in-range-timestamp-saturated|"+fieldKey(n), n.Name, fmt.Sprintf("Decode with validation accepts %x; the 8 bytes at offset %d are a timestamp inside the int64-nanosecond range, but the decoded value re-encodes them as the saturated maximum (%x)", b, k, re), map[string]any{"shape": n.Name, "bytes": fmt.Sprintf("%x", b)})
+					return
+				}
+			}
+		}
 		rec.skipped++
-		return // saturated timestamps are excluded by the statement
+		return
 	}
 	rec.accepted++
 	rp := map[string]any{"shape": n.Name, "bytes": fmt.Sprintf("%x", b)}
